@@ -83,7 +83,7 @@ def gen_taskinput(r, v, for_new, is_epic=False):
         if r.p(25 if for_new else 55):
             d["state"] = r.weighted([(r.pick(STATES), 94), ("bogus", 3), ("", 3)])
         if r.p(15 if for_new else 30):
-            d["claim"] = r.weighted([("ag-" + str(r.n(3)), 70), ("", 30)])
+            d["claim"] = r.weighted([("ag-" + str(r.n(3)), 64), ("", 28), (" ", 5), (" x ", 3)])
     return d
 
 
@@ -100,7 +100,7 @@ def gen_request(r, v, weights=None):
     w = weights or {"new_task": 22, "new_epic": 8, "set": 26, "claim": 6, "claim_oldest": 8, "sequence": 12,
                     "sequence_rm": 3, "plan": 5, "prune": 3, "prune_yes": 3, "compact": 2, "malformed": 3}
     kind = r.weighted(list(w.items()))
-    agent = r.weighted([("", 20), ("ag-1", 40), ("ag-2", 40)])
+    agent = r.weighted([("", 20), ("ag-1", 38), ("ag-2", 36), (" ", 3), ("\t\n", 1), (" ag-1 ", 2)])      # identities are opaque text: blank-looking ones included
     if kind in ("new_task", "new_epic"):
         is_epic = kind == "new_epic"
         d = gen_taskinput(r, v, True, is_epic)
